@@ -1022,7 +1022,8 @@ func advTedGroth16(r *vcore.Run) {
 		r.Count("adv.groth16.false-statement-refused-under-lying-hints", 1)
 	case ok:
 		r.Count("adv.groth16.FALSE-STATEMENT-PROOF-VERIFIES", 1)
-		r.Violation("adv/twistededwards.ScalarMul/groth16-proof-of-a-false-statement-verifies",
+		// same defect as the Solve-level lies of advTed: one signature
+		r.Violation("adv/twistededwards.ScalarMul/UNSOUND/scalar-decomposition-checked-modulo-the-native-field-with-a-free-quotient",
 			"groth16.Verify accepts a proof, made by groth16.Prove with lying hint functions, of the false public statement [s]P = -P", rep)
 	default:
 		r.Count("adv.groth16.proof-made-but-rejected", 1)
